@@ -298,6 +298,8 @@ class VerifyEnv:
                     shp = shape_of(cur)
                 if isinstance(shp, V):
                     o.fields[name] = shp
+                elif isinstance(shp, ListShape):
+                    o.fields[name] = st.alloc(HList(sym=shp.fresh_seq(st, "%s'" % name, view=False)))
                 elif isinstance(shp, ConstShape):
                     o.fields[name] = shp.v
                 else:
